@@ -458,6 +458,49 @@ void execute(const Plan &plan, Ctx &ctx)
     DumpOpts withLinks; // the identity of an argument: everything, including the order of equivalence lists and import links
     withLinks.importResolved = true;
     withLinks.sortEquivalences = false;
+    // ... and, through the import sources that have a model attached, every model reachable from it: what a service says about
+    // a model with resolved imports is a function of all of them (a library model left half linked by a failed resolution
+    // is a different argument from the same model fully linked)
+    auto argDump = [&](const ModelPtr &model) {
+        std::string out;
+        std::vector<ModelPtr> order {model};
+        std::map<const Model *, size_t> index {{model.get(), 0}};
+        for (size_t k = 0; k < order.size() && model != nullptr; ++k) {
+            ModelPtr m = order[k];
+            out += "@" + str(k) + "{" + dumpModel(m, withLinks) + "}";
+            std::vector<ImportSourcePtr> sources; // in traversal order, each once
+            auto note = [&](const ImportSourcePtr &src) {
+                if (src != nullptr && std::find(sources.begin(), sources.end(), src) == sources.end()) {
+                    sources.push_back(src);
+                }
+            };
+            for (size_t i = 0; i < m->unitsCount(); ++i) {
+                if (m->units(i)->isImport()) {
+                    note(m->units(i)->importSource());
+                }
+            }
+            std::vector<ComponentPtr> cs;
+            allComponents(m, cs);
+            for (auto &c : cs) {
+                if (c->isImport()) {
+                    note(c->importSource());
+                }
+            }
+            for (size_t i = 0; i < sources.size(); ++i) {
+                auto linked = sources[i]->model();
+                if (linked == nullptr) {
+                    continue;
+                }
+                auto it = index.find(linked.get());
+                if (it == index.end()) {
+                    it = index.emplace(linked.get(), order.size()).first;
+                    order.push_back(linked);
+                }
+                out += "[" + str(i) + "->@" + str(it->second) + "]";
+            }
+        }
+        return out;
+    };
     DumpOpts normalised;
     normalised.normaliseMathWhitespace = true;
     ctx.count(aux == 0 ? "purity_main_runs" : (aux == 1 ? "purity_layout_twin_runs" : "purity_isolation_slice_runs"));
@@ -709,9 +752,9 @@ void execute(const Plan &plan, Ctx &ctx)
                 continue;
             }
             ctx.begin(stepNo, "CLONE", "");
-            std::string before = dumpModel(it->second, withLinks);
+            std::string before = argDump(it->second);
             auto c = it->second->clone();
-            if (dumpModel(it->second, withLinks) != before) {
+            if (argDump(it->second) != before) {
                 ctx.violate("C12", "input-mutated", "Model.clone", "clone() changed the model it copies");
                 return;
             }
@@ -725,9 +768,9 @@ void execute(const Plan &plan, Ctx &ctx)
                 continue;
             }
             ctx.begin(stepNo, "EQUALS", "");
-            std::string da = dumpModel(a->second, withLinks), db = dumpModel(b->second, withLinks);
+            std::string da = argDump(a->second), db = argDump(b->second);
             bool r = a->second->equals(b->second);
-            if (dumpModel(a->second, withLinks) != da || dumpModel(b->second, withLinks) != db) {
+            if (argDump(a->second) != da || argDump(b->second) != db) {
                 ctx.violate("C12", "input-mutated", "Entity.equals", "equals() changed one of its operands");
                 return;
             }
@@ -743,10 +786,10 @@ void execute(const Plan &plan, Ctx &ctx)
             bool autoIds = s.arg(2) != 0;
             ctx.begin(stepNo, "PRINT", inst == 0 ? "fresh-instance" : "reused-instance");
             PrinterPtr printer = inst == 0 ? Printer::create() : (w.printers[inst] ? w.printers[inst] : (w.printers[inst] = Printer::create()));
-            std::string before = dumpModel(it->second, withLinks);
+            std::string before = argDump(it->second);
             std::string text = printer->printModel(it->second, autoIds);
             checkLogger(ctx, printer, "printer", "printModel", false);
-            if (dumpModel(it->second, withLinks) != before) {
+            if (argDump(it->second) != before) {
                 ctx.violate("C12", "input-mutated", "Printer.printModel", "printModel() changed the model it was given");
                 return;
             }
@@ -763,10 +806,10 @@ void execute(const Plan &plan, Ctx &ctx)
             long inst = s.arg(2);
             ctx.begin(stepNo, "VALIDATE", inst == 0 ? "fresh-instance" : "reused-instance");
             ValidatorPtr v = inst == 0 ? Validator::create() : (w.validators[inst] ? w.validators[inst] : (w.validators[inst] = Validator::create()));
-            std::string before = dumpModel(it->second, withLinks);
+            std::string before = argDump(it->second);
             v->validateModel(it->second);
             checkLogger(ctx, v, "validator", "validateModel", false);
-            if (dumpModel(it->second, withLinks) != before) {
+            if (argDump(it->second) != before) {
                 ctx.violate("C12", "input-mutated", "Validator.validateModel", "validateModel() changed the model it was given");
                 return;
             }
@@ -783,7 +826,7 @@ void execute(const Plan &plan, Ctx &ctx)
             long inst = s.arg(2);
             ctx.begin(stepNo, "ANNOT", inst == 0 ? "fresh-instance" : "reused-instance");
             AnnotatorPtr an = inst == 0 ? Annotator::create() : (w.annotators[inst] ? w.annotators[inst] : (w.annotators[inst] = Annotator::create()));
-            std::string before = dumpModel(it->second, withLinks);
+            std::string before = argDump(it->second);
             if (inst == 0 || an->model() != it->second) {
                 an->setModel(it->second);
             } else {
@@ -858,7 +901,7 @@ void execute(const Plan &plan, Ctx &ctx)
                 ctx.violate("C12", "answer-from-remembered-state", inst == 0 ? "Annotator,fresh-instance" : "Annotator,reused-instance", "annotator lookups after setModel(m) returned " + str(foreign) + " object(s) that do not belong to m");
                 return;
             }
-            if (dumpModel(it->second, withLinks) != before) {
+            if (argDump(it->second) != before) {
                 ctx.violate("C12", "input-mutated", "Annotator.lookups", "annotator lookups changed the model they were given");
                 return;
             }
@@ -875,7 +918,7 @@ void execute(const Plan &plan, Ctx &ctx)
             long nExt = s.arg(3);
             ctx.begin(stepNo, "ANALYSE", inst == 0 ? "fresh-instance" : "reused-instance");
             AnalyserPtr a = inst == 0 ? Analyser::create() : (w.analysers[inst] ? w.analysers[inst] : (w.analysers[inst] = Analyser::create()));
-            std::string before = dumpModel(it->second, withLinks);
+            std::string before = argDump(it->second);
             // documented state: the external variables, fully determined by this step
             a->removeAllExternalVariables();
             std::string ext;
@@ -900,7 +943,7 @@ void execute(const Plan &plan, Ctx &ctx)
             a->analyseModel(it->second);
             auto am = a->model();
             checkLogger(ctx, a, "analyser", "analyseModel", analysisFailed(am));
-            if (dumpModel(it->second, withLinks) != before) {
+            if (argDump(it->second) != before) {
                 ctx.violate("C12", "input-mutated", "Analyser.analyseModel", "analyseModel() changed the model it was given");
                 return;
             }
@@ -925,11 +968,11 @@ void execute(const Plan &plan, Ctx &ctx)
             GeneratorPtr g = inst == 0 ? Generator::create() : (w.generators[inst] ? w.generators[inst] : (w.generators[inst] = Generator::create()));
             std::string beforeAm = dumpAnalyserModel(it->second);
             auto src = w.amodelSource[s.arg(1)];
-            std::string beforeModel = dumpModel(src, withLinks);
+            std::string beforeModel = argDump(src);
             g->setProfile(GeneratorProfile::create(python ? GeneratorProfile::Profile::PYTHON : GeneratorProfile::Profile::C));
             g->setModel(it->second);
             std::string code = g->interfaceCode() + "\n====\n" + g->implementationCode();
-            if (dumpAnalyserModel(it->second) != beforeAm || dumpModel(src, withLinks) != beforeModel) {
+            if (dumpAnalyserModel(it->second) != beforeAm || argDump(src) != beforeModel) {
                 ctx.violate("C12", "input-mutated", "Generator", "code generation changed the analyser model or the model behind it");
                 return;
             }
@@ -963,7 +1006,7 @@ void execute(const Plan &plan, Ctx &ctx)
             ctx.begin(stepNo, s.op, inst == 0 ? "fresh-instance" : "reused-instance");
             std::string lib = libraryState(imp, false);
             if (s.op == "RESOLVE") {
-                std::string before = dumpModel(it->second, withLinks);
+                std::string before = dumpModel(it->second, withLinks); // (a resolution starts by forgetting the model's links: what they led to does not matter)
                 bool ok = imp->resolveImports(it->second, doc.dir);
                 checkLogger(ctx, imp, "importer", "resolveImports", !ok);
                 ident = "RESOLVE|" + str(imp->isStrict()) + "|" + dg(lib) + "|" + dg(before) + "|" + doc.dir;
@@ -989,14 +1032,14 @@ void execute(const Plan &plan, Ctx &ctx)
                 obsNorm = str(ok) + "\n" + dumpIssues(imp) + dumpModel(it->second, withLinks) + libraryState(imp, true);
                 ctx.count("purity_resolve");
             } else {
-                std::string before = dumpModel(it->second, withLinks);
+                std::string before = argDump(it->second);
                 std::vector<std::string> libBefore;
                 for (size_t i = 0; i < imp->libraryCount(); ++i) {
                     libBefore.push_back(dumpModel(imp->library(i), withLinks));
                 }
                 auto flat = imp->flattenModel(it->second);
                 checkLogger(ctx, imp, "importer", "flattenModel", flat == nullptr);
-                if (dumpModel(it->second, withLinks) != before) {
+                if (argDump(it->second) != before) {
                     ctx.violate("C12", "input-mutated", "Importer.flattenModel", "flattenModel() changed the model it was given");
                     return;
                 }
